@@ -18,11 +18,15 @@ EXPLANATION = (
     "(b) in Split._fill, Split.run and Zip._fill every branch but at most the last one receives copy.deepcopy of "
     "the value/block, the copy being made inside the branch loop, and the guard of Split.run's copy is decided "
     "as a linear condition over (ind, n_of_active_seqs); (c) copy_buf defaults to True and reaches _copy_buf "
-    "only through bool().  Does not decide that a branch computes what it would compute alone (values) nor "
+    "only through bool(); (d) the isolation rests on copy.deepcopy copying everything a value holds: every __deepcopy__ "
+    "defined anywhere in lena (expected: none) must hand the object's content to the copy only through copy.deepcopy, and "
+    "no class defines __copy__-style shortcuts under the name __deepcopy__ (`__deepcopy__ = __copy__`).  Does not decide that a branch computes what it would compute alone (values) nor "
     "aliasing introduced by user elements.")
 RULES = {
     "C04-a": "FRESH: every context-kind value yielded by an accumulator's compute/request is a per-yield deep copy",
     "C04-b": "FRESH: Split._fill / Split.run / Zip._fill hand a per-branch deep copy to every branch but (at most) the last",
+    "C04-d": "COPY PROTOCOL: a __deepcopy__ defined in lena passes the content of self on only inside copy.deepcopy(...) "
+             "(a shallow hook makes Split's per-branch copies share their nested dictionaries)",
     "C04-c": "Split.__init__: copy_buf defaults to True and is stored as bool(copy_buf)",
 }
 
@@ -420,7 +424,68 @@ def check_default(ctx):
                 ctx.violation("C04-c", n, "Split.%s rewrites _copy_buf" % name)
 
 
+def check_copy_protocol(ctx):
+    """copy.deepcopy(block) is the only barrier between branches: a class of lena that customises the protocol and
+    hands its content over uncopied defeats every copy made by Split / Zip / the accumulators at once."""
+    res = ctx.res
+    n_cls = n_hooks = 0
+    for mod, cls in ctx.tree.classes():
+        n_cls += 1
+        for st in cls.body:
+            # __deepcopy__ = <something else>
+            if isinstance(st, ast.Assign) and any(isinstance(t, ast.Name) and t.id == "__deepcopy__" for t in st.targets):
+                n_hooks += 1
+                ctx.violation("C04-d", st, "%s binds __deepcopy__ to `%s`: copy.deepcopy of such an object (a context travelling in the "
+                              "flow) no longer copies what it holds, so Split's per-branch copies share nested dictionaries"
+                              % (cls.name, A.short(st.value, 40)), construct="deepcopy-alias:%s" % cls.name)
+        hook = methods(cls).get("__deepcopy__")
+        if hook is None:
+            continue
+        n_hooks += 1
+        selfn = A.func_params(hook)[0] if A.func_params(hook) else "self"
+        inside = set()
+        for c in A.walk_local(hook):
+            if isinstance(c, ast.Call) and res.call_canon(c) == "copy.deepcopy":
+                for x in ast.walk(c):
+                    inside.add(id(x))
+        bad = []
+        for n in A.walk_local(hook):
+            if isinstance(n, ast.Name) and n.id == selfn and isinstance(n.ctx, ast.Load) and id(n) not in inside:
+                par = A.parent(n)
+                # reading an attribute of self is not handing over its content -- unless the attribute value itself is handed
+                # over (checked by the same rule on the attribute expression below); type(self) / self.__class__ are fine
+                if isinstance(par, ast.Attribute):
+                    gp = A.parent(par)
+                    if par.attr in ("__class__",) or (isinstance(gp, ast.Call) and gp.func is par):
+                        if isinstance(gp, ast.Call) and gp.func is par and par.attr in ("items", "values", "keys", "copy", "__iter__"):
+                            bad.append(gp)
+                        continue
+                    # self._x passed on as it is: fine for callables and immutables, which cannot be told from here; but an
+                    # attribute that is copied *shallowly* (list(self.x), self.x[:], self.x.copy(), copy.copy(self.x)) is thereby
+                    # declared a container, and its elements are shared
+                    if isinstance(gp, ast.Call) and par in gp.args and res.call_canon(gp) in (
+                            "builtins.list", "builtins.dict", "builtins.set", "builtins.tuple", "copy.copy"):
+                        bad.append(gp)
+                    elif isinstance(gp, ast.Subscript) and gp.value is par and isinstance(gp.slice, ast.Slice):
+                        bad.append(gp)
+                    elif isinstance(gp, ast.Attribute) and gp.attr == "copy" and isinstance(A.parent(gp), ast.Call):
+                        bad.append(A.parent(gp))
+                    continue
+                if isinstance(par, ast.Call) and par.func is not n and res.call_canon(par) in ("builtins.type", "builtins.id", "builtins.isinstance"):
+                    continue
+                bad.append(par if par is not None else n)
+        ctx.check("C04-d", not bad, hook, "%s.__deepcopy__ hands the content of %s over without copy.deepcopy (`%s`): the copy shares every "
+                  "nested dictionary and list with the original, so an in-place update made in one Split branch is visible in the "
+                  "others and in the source data" % (cls.name, selfn, A.short(bad[0], 60) if bad else ""),
+                  detail="%s.__deepcopy__ copies its content with copy.deepcopy" % cls.name, construct="shallow-deepcopy:%s" % cls.name)
+    ctx.note("deepcopy_hooks", n_hooks)
+    ctx.instances_floor("C04-d", n_cls, 60, "classes examined for copy hooks")
+    if not n_hooks:
+        ctx.ok("C04-d", ("lena", "<tree>"), "no class of lena customises __deepcopy__ (%d classes): copy.deepcopy copies all they hold" % n_cls)
+
+
 def check(ctx):
+    check_copy_protocol(ctx)
     check_accumulators(ctx)
     check_split_fill(ctx)
     check_split_run(ctx)
@@ -429,6 +494,12 @@ def check(ctx):
 
 
 VARIANTS = [
+    M("context-shallow-deepcopy", "lena/context/context.py", "    def __getattr__(self, name):", "    def __deepcopy__(self, memo):\n        return Context(self, formatter=self._formatter)\n\n    def __getattr__(self, name):", ["C04-d"]),
+    M("context-deepcopy-is-copy", "lena/context/context.py", "    def __getattr__(self, name):", "    __deepcopy__ = dict.copy\n\n    def __getattr__(self, name):", ["C04-d"]),
+    M("histogram-deepcopy-shares-bins", "lena/structures/histogram.py", "    def __eq__(self, other):", "    def __deepcopy__(self, memo):\n        new = histogram(self.edges, None)\n        new.bins = list(self.bins)\n        return new\n\n    def __eq__(self, other):", ["C04-d"], nth=0),
+    V("twin", "context-deep-deepcopy", None, None, None, (), edits=[
+        ("lena/context/context.py", "import functools\n", "import copy\nimport functools\n", 0),
+        ("lena/context/context.py", "    def __getattr__(self, name):", "    def __deepcopy__(self, memo):\n        return Context(copy.deepcopy(dict(self), memo), formatter=self._formatter)\n\n    def __getattr__(self, name):", 0)]),
     M("split-run-memo-copy", "lena/core/split.py", "            ind = 0\n            while ind < n_of_active_seqs:\n                if self._copy_buf and n_of_active_seqs - ind > 1:\n                    # last sequence doesn't need a copy of the buffer\n                    buf = copy.deepcopy(orig_buf)", "            ind = 0\n            buf_copy = None\n            while ind < n_of_active_seqs:\n                if self._copy_buf and n_of_active_seqs - ind > 1:\n                    if buf_copy is None:\n                        buf_copy = copy.deepcopy(orig_buf)\n                    buf = buf_copy", ["C04-b"]),
     M("sum-no-copy", "lena/math/elements.py", "yield (self._total, copy.deepcopy(self._cur_context))",
       "yield (self._total, self._cur_context)", ["C04-a"], nth=1),
